@@ -85,6 +85,36 @@ theorem C17_opnorm_mono (B : E →L[ℝ] E) (A : E →L[ℝ] F) (hG : IsGram B A
     · cases h'
   · cases h
 
+/-- Scale equivariance: for every `s > 0`, however small or large, the estimate for `s • B` is `s` times the
+    estimate for `B` (same start, same budget) — only an operator that maps the iterate to exactly `0` takes the
+    zero exit. -/
+theorem C17_scale (B : E →L[ℝ] E) (s : ℝ) (hs : 0 < s) (maxiter : Nat) (v0 : E) (m m' : ℝ) (v v' : E)
+    (h : powerIteration (opsOf B) maxiter v0 = .ok (m, v))
+    (h' : powerIteration (opsOf (s • B)) maxiter v0 = .ok (m', v')) : m' = s * m := by
+  obtain ⟨_, hp⟩ := powerIteration_ok B maxiter v0 m v h
+  obtain ⟨_, hp'⟩ := powerIteration_ok (s • B) maxiter v0 m' v' h'
+  have := powerLoop_smul_op B s hs maxiter none (‖v0‖⁻¹ • v0)
+  simp only [Option.map_none] at this
+  rw [hp, hp'] at this
+  simpa using this
+
+/-- hence `operator_norm(c·A) = |c|·operator_norm(A)` for `c ≠ 0` (Gram operator `c²·B`) -/
+theorem C17_opnorm_scale (B : E →L[ℝ] E) (c : ℝ) (hc : c ≠ 0) (maxiter : Nat) (v0 : E) (n n' : ℝ)
+    (h : operatorNorm (opsOf B) maxiter v0 = .ok n)
+    (h' : operatorNorm (opsOf ((c ^ 2) • B)) maxiter v0 = .ok n') : n' = |c| * n := by
+  unfold operatorNorm at h h'
+  split at h
+  · rename_i mu v hp
+    split at h'
+    · rename_i mu' v' hp'
+      simp only [Except.ok.injEq] at h h'
+      subst h; subst h'
+      rw [C17_scale B (c ^ 2) (by positivity) maxiter v0 mu mu' v v' hp hp']
+      show Real.sqrt (c ^ 2 * mu) = |c| * Real.sqrt mu
+      rw [Real.sqrt_mul (sq_nonneg c), Real.sqrt_sq_eq_abs]
+    · cases h'
+  · cases h
+
 /-- The zero operator: the estimate is exactly `0` (and the returned vector `0`) for every budget ≥ 1. -/
 theorem C17_zero_exact (k : Nat) (v0 : E) :
     powerIteration (opsOf (0 : E →L[ℝ] E)) (k + 1) v0 = .ok (0, 0) ∧
